@@ -134,6 +134,38 @@ def Env.elemsOK (env : Env) : Bool :=
     | .vstrs _ pw _ => decide (0 < pw)
     | _ => true))
 
+/-! ### one byte order per protocol (C03) -/
+
+/-- byte order of each protocol module: BSE (0) and sample (2) little-endian; risk (1), SSE (3), SZSE (4)
+    and the hand-written sample types (5) big-endian -/
+def protoEndian : Nat → Endian
+  | 0 => .le
+  | 2 => .le
+  | _ => .be
+
+def Op.endianIs (e : Endian) : Op → Bool
+  | .scalar _ e' => e' == e
+  | .vstr _ e' => e' == e
+  | .nums _ _ e' => e' == e
+  | .fixeds _ _ _ _ e' => e' == e
+  | .vstrs _ _ e' => e' == e
+  | .objs _ _ e' => e' == e
+  | _ => true
+
+def TyDef.endianIs (e : Endian) (td : TyDef) : Bool :=
+  td.enc.all (Op.endianIs e) && td.dec.all (Op.endianIs e) &&
+  (match td.frame with
+   | some fd => fd.e == e && fd.hdr.all (Op.endianIs e)
+   | none => true)
+
+def endianOKAux : List TyDef → List Nat → Bool
+  | [], [] => true
+  | td :: tds, p :: ps => td.endianIs (protoEndian p) && endianOKAux tds ps
+  | _, _ => false
+
+/-- every multi-byte integer of every message of a protocol uses that protocol's byte order -/
+def Env.endianOK (env : Env) (protos : List Nat) : Bool := endianOKAux env.types protos
+
 /-! ### the canonical domain of C01 -/
 
 def fixedCanon (n : Nat) (pad : UInt8) (left : Bool) (s : Bytes) : Bool :=
